@@ -14,7 +14,7 @@ import copy
 from .facts import Body
 from .inline import inline_calls, resolve_closure_calls
 
-CONSUMERS = ('any', 'all', 'fold', 'sum', 'for_each')
+CONSUMERS = ('any', 'all', 'fold', 'sum', 'for_each', 'find', 'find_map', 'position', 'count', 'try_fold', 'try_for_each')
 
 _NEXT = {'k': 'const', 'ty': 'fn', 'fn': 'std::iter::Iterator::next', 'fn_canon': 'core::iter::traits::iterator::Iterator::next',
          'fn_local': False, 'gargs': [], 'trait': 'std::iter::Iterator', 'trait_canon': 'core::iter::traits::iterator::Iterator',
@@ -56,6 +56,9 @@ def _is_consumer(t, collects=False):
         return 'collect'
     if last not in CONSUMERS:
         return None
+    if last in ('try_fold', 'try_for_each') and not (t.get('dest') or {}).get('ty', '').startswith(
+            ('std::result::Result<', 'std::option::Option<')):
+        return None         # (a ControlFlow-valued try_fold is left as a call)
     res = fc.get('resolved_canon') or ''
     # a type's own override of the consumer (e.g. a specialised fold) is still the same function of the items
     return last
@@ -151,8 +154,8 @@ def desugar_once(body, collects=False):
         x_l = w.local('?item')
         itr_l = w.local('&mut ' + (it_ty[5:] if by_ref else it_ty))
         clo_l = None
-        if kind in ('any', 'all', 'for_each', 'fold'):
-            ci = 2 if kind == 'fold' else 1
+        if kind in ('any', 'all', 'for_each', 'fold', 'find', 'find_map', 'position', 'try_fold', 'try_for_each'):
+            ci = 2 if kind in ('fold', 'try_fold') else 1
             clo_ty = args[ci].get('ty', '?')
             clo_l = w.local(clo_ty)
             pre.append(_assign(_pl(clo_l, clo_ty), {'r': 'use', 'a': copy.deepcopy(args[ci])}, span))
@@ -164,6 +167,20 @@ def desugar_once(body, collects=False):
         if kind == 'collect':
             acc_ty = dest.get('ty', '?')
             acc_l = w.local(acc_ty)
+        dty = dest.get('ty', '?')
+        is_res = dty.startswith('std::result::Result<')
+        wrap_adt = 'std::result::Result' if is_res else 'std::option::Option'
+        wrap_ok = ('Ok', 0) if is_res else ('Some', 1)        # the variant that carries the output / says "go on"
+
+        def wrapped(op):
+            return {'r': 'aggr', 'agg': 'adt', 'adt': wrap_adt, 'variant': wrap_ok[0], 'vi': wrap_ok[1], 'fields': ['0'], 'ops': [op]}
+        none_rv = {'r': 'aggr', 'agg': 'adt', 'adt': 'std::option::Option', 'variant': 'None', 'vi': 0, 'fields': [], 'ops': []}
+        if kind == 'try_fold':
+            acc_l = w.local('?acc')
+            pre.append(_assign(_pl(acc_l, '?acc'), {'r': 'use', 'a': copy.deepcopy(args[1])}, span))
+        if kind in ('position', 'count'):
+            acc_l = w.local('usize')
+            pre.append(_assign(_pl(acc_l, 'usize'), {'r': 'use', 'a': {'k': 'const', 'ty': 'usize', 'int': '0', 'syn': kind}}, span))
         if kind == 'sum':
             acc_ty = dest.get('ty', '?')
             acc_l = w.local(acc_ty)
@@ -178,9 +195,17 @@ def desugar_once(body, collects=False):
                               {'t': 'goto', 'target': target, 'span': span})
             ex_hit = w.block([_assign(copy.deepcopy(dest), {'r': 'use', 'a': {'k': 'const', 'ty': 'bool', 'bool': kind == 'any'}}, span)],
                              {'t': 'goto', 'target': target, 'span': span})
-        elif kind in ('fold', 'sum', 'collect'):
+        elif kind in ('fold', 'sum', 'collect', 'count'):
             ex_none = w.block([_assign(copy.deepcopy(dest), {'r': 'use', 'a': _op(acc_l, dest.get('ty', '?'))}, span)],
                               {'t': 'goto', 'target': target, 'span': span})
+        elif kind in ('find', 'find_map', 'position'):
+            ex_none = w.block([_assign(copy.deepcopy(dest), copy.deepcopy(none_rv), span)], {'t': 'goto', 'target': target, 'span': span})
+        elif kind == 'try_fold':
+            ex_none = w.block([_assign(copy.deepcopy(dest), wrapped(_op(acc_l, '?acc')), span)], {'t': 'goto', 'target': target, 'span': span})
+        elif kind == 'try_for_each':
+            u0 = w.local('()')
+            ex_none = w.block([_assign(_pl(u0, '()'), {'r': 'aggr', 'agg': 'tuple', 'ops': []}, span),
+                               _assign(copy.deepcopy(dest), wrapped(_op(u0, '()')), span)], {'t': 'goto', 'target': target, 'span': span})
         else:
             ex_none = w.block([_assign(copy.deepcopy(dest), {'r': 'aggr', 'agg': 'tuple', 'ops': []}, span)],
                               {'t': 'goto', 'target': target, 'span': span})
@@ -213,15 +238,28 @@ def desugar_once(body, collects=False):
             w.blocks[bodyb]['stmts'].append(_assign(_pl(acc_l, acc_ty), {'r': 'binop', 'op': 'Add', 'a': _op(acc_l, acc_ty, k='copy'),
                                                                        'b': _op(x_l, acc_ty), 'syn': 'sum'}, span))
             w.blocks[bodyb]['term'] = {'t': 'goto', 'target': hdr, 'span': span}
+        elif kind == 'count':
+            one = {'k': 'const', 'ty': 'usize', 'int': '1', 'syn': 'count'}
+            w.blocks[bodyb]['stmts'].append(_assign(_pl(acc_l, 'usize'), {'r': 'binop', 'op': 'Add', 'a': _op(acc_l, 'usize', k='copy'),
+                                                                       'b': one, 'syn': 'count'}, span))
+            w.blocks[bodyb]['term'] = {'t': 'goto', 'target': hdr, 'span': span}
         else:
             # r = clo(x)  /  acc = clo(acc, x)
             tup_l = w.local('(tuple)')
-            ops = ([_op(acc_l, '?')] if kind == 'fold' else []) + [_op(x_l, '?item')]
+            if kind == 'find':
+                # the predicate sees the item by reference
+                xr_l = w.local('&?item')
+                w.blocks[bodyb]['stmts'].append(_assign(_pl(xr_l, '&?item'), {'r': 'ref', 'mut': False, 'bk': 'Shared',
+                                                                              'place': _pl(x_l, '?item')}, span))
+                ops = [_op(xr_l, '&?item')]
+            else:
+                ops = ([_op(acc_l, '?')] if kind in ('fold', 'try_fold') else []) + [_op(x_l, '?item')]
             tup_ty = '(%s)' % ', '.join(['?'] * len(ops)) if len(ops) > 1 else '(?,)'
             w.blocks[bodyb]['stmts'].append(_assign(_pl(tup_l, tup_ty), {'r': 'aggr', 'agg': 'tuple', 'ops': ops}, span))
             cr_l = w.local('&mut ' + w.locals[clo_l]['ty'])
             w.blocks[bodyb]['stmts'].append(_assign(_pl(cr_l), {'r': 'ref', 'mut': True, 'bk': 'Mut', 'place': _pl(clo_l)}, span))
-            r_ty = 'bool' if kind in ('any', 'all') else (dest.get('ty', '?') if kind == 'fold' else '()')
+            r_ty = 'bool' if kind in ('any', 'all', 'find', 'position') else \
+                (dest.get('ty', '?') if kind in ('fold', 'find_map', 'try_fold', 'try_for_each') else '()')
             r_l = w.local(r_ty)
             after = w.block([], None)
             cf = dict(_CALLMUT)
@@ -237,6 +275,35 @@ def desugar_once(body, collects=False):
             elif kind == 'fold':
                 w.blocks[after]['stmts'].append(_assign(_pl(acc_l, r_ty), {'r': 'use', 'a': _op(r_l, r_ty)}, span))
                 w.blocks[after]['term'] = {'t': 'goto', 'target': hdr, 'span': span}
+            elif kind == 'find':
+                some_rv = {'r': 'aggr', 'agg': 'adt', 'adt': 'std::option::Option', 'variant': 'Some', 'vi': 1, 'fields': ['0'],
+                           'ops': [_op(x_l, '?item')]}
+                hit = w.block([_assign(copy.deepcopy(dest), some_rv, span)], {'t': 'goto', 'target': target, 'span': span})
+                w.blocks[after]['term'] = {'t': 'switch', 'discr': _op(r_l, 'bool'), 'arms': [['0', hdr]], 'otherwise': hit, 'span': span}
+            elif kind == 'position':
+                some_rv = {'r': 'aggr', 'agg': 'adt', 'adt': 'std::option::Option', 'variant': 'Some', 'vi': 1, 'fields': ['0'],
+                           'ops': [_op(acc_l, 'usize', k='copy')]}
+                hit = w.block([_assign(copy.deepcopy(dest), some_rv, span)], {'t': 'goto', 'target': target, 'span': span})
+                one = {'k': 'const', 'ty': 'usize', 'int': '1', 'syn': 'position'}
+                miss = w.block([_assign(_pl(acc_l, 'usize'), {'r': 'binop', 'op': 'Add', 'a': _op(acc_l, 'usize', k='copy'), 'b': one,
+                                                              'syn': 'position'}, span)], {'t': 'goto', 'target': hdr, 'span': span})
+                w.blocks[after]['term'] = {'t': 'switch', 'discr': _op(r_l, 'bool'), 'arms': [['0', miss]], 'otherwise': hit, 'span': span}
+            elif kind == 'find_map':
+                dd_l = w.local('isize')
+                w.blocks[after]['stmts'].append(_assign(_pl(dd_l, 'isize'), {'r': 'discr', 'place': _pl(r_l, r_ty)}, span))
+                hit = w.block([_assign(copy.deepcopy(dest), {'r': 'use', 'a': _op(r_l, r_ty)}, span)],
+                              {'t': 'goto', 'target': target, 'span': span})
+                w.blocks[after]['term'] = {'t': 'switch', 'discr': _op(dd_l, 'isize'), 'arms': [['0', hdr]], 'otherwise': hit, 'span': span}
+            elif kind in ('try_fold', 'try_for_each'):
+                dd_l = w.local('isize')
+                w.blocks[after]['stmts'].append(_assign(_pl(dd_l, 'isize'), {'r': 'discr', 'place': _pl(r_l, r_ty)}, span))
+                stop = w.block([_assign(copy.deepcopy(dest), {'r': 'use', 'a': _op(r_l, r_ty)}, span)],
+                               {'t': 'goto', 'target': target, 'span': span})
+                payload = [{'downcast': wrap_ok[0], 'vi': wrap_ok[1]}, {'f': 0, 'n': '0', 'of': wrap_adt, 'ty': '?acc'}]
+                goon_stmts = [_assign(_pl(acc_l, '?acc'), {'r': 'use', 'a': _op(r_l, '?acc', payload)}, span)] if kind == 'try_fold' else []
+                goon = w.block(goon_stmts, {'t': 'goto', 'target': hdr, 'span': span})
+                w.blocks[after]['term'] = {'t': 'switch', 'discr': _op(dd_l, 'isize'), 'arms': [[str(wrap_ok[1]), goon]],
+                                           'otherwise': stop, 'span': span}
             else:
                 w.blocks[after]['term'] = {'t': 'goto', 'target': hdr, 'span': span}
         if kind == 'collect':
@@ -811,4 +878,14 @@ def nest_form(facts, body, rounds=24, yields=True, collects=False):
     # values that travel together in a struct / tuple become one local per field (pk/sroa.py)
     from .sroa import sroa
     cur = sroa(facts, cur)
+    # the desugared consumers and inlined closures leave joins whose branch is known on every incoming path
+    # (`r = Some(..)` / `r = None` followed by the consumer's own test of r): thread them (pk/thread.py)
+    if cur is not body:
+        from .thread import thread
+        keep = {k: getattr(cur, k) for k in ('fused', 'yields', 'inlined', 'sroa', 'original', 'key_in_facts') if hasattr(cur, k)}
+        cur2 = thread(cur)
+        if cur2 is not cur:
+            for k, v in keep.items():
+                setattr(cur2, k, v)
+            cur = cur2
     return cur
